@@ -16,42 +16,43 @@ namespace RedunModel.C01
 open RedunModel.EvalCore
 
 /-- every outcome the executable evaluator reports (other than "unknown") is prescribed by the reduction rules -/
-theorem evalAll_sound (lib : Lib) (n : Nat) (e : Expr) (r : Out) (h : r ∈ evalAll lib n e) (hk : r ≠ .unk) :
-    Eval lib e r :=
-  EvalCore.evalAll_sound n e r h hk
+theorem evalAll_sound (lib : Lib) (n : Nat) (c : Ctx) (e : Expr) (r : Out) (h : r ∈ evalAll lib n c e) (hk : r ≠ .unk) :
+    Eval lib c e r :=
+  EvalCore.evalAll_sound n c e r h hk
 
-theorem evalFuel_sound (lib : Lib) (n : Nat) (e : Expr) (r : Out) (h : evalFuel lib n e = some r) : Eval lib e r :=
+theorem evalFuel_sound (lib : Lib) (n : Nat) (c : Ctx) (e : Expr) (r : Out) (h : evalFuel lib n c e = some r) :
+    Eval lib c e r :=
   EvalCore.evalFuel_sound h
 
 /-- when the evaluator reports no "unknown", every outcome the rules allow is in its set -/
-theorem evalAll_complete (lib : Lib) (n : Nat) (e : Expr) (hn : Out.unk ∉ evalAll lib n e) (r : Out)
-    (h : Eval lib e r) : r ∈ evalAll lib n e :=
-  EvalCore.evalAll_complete n e r hn h
+theorem evalAll_complete (lib : Lib) (n : Nat) (c : Ctx) (e : Expr) (hn : Out.unk ∉ evalAll lib n c e) (r : Out)
+    (h : Eval lib c e r) : r ∈ evalAll lib n c e :=
+  EvalCore.evalAll_complete n c e r hn h
 
 /-- ... so in that case the computed set is exactly the denotation -/
-theorem evalAll_exact (lib : Lib) (n : Nat) (e : Expr) (hn : Out.unk ∉ evalAll lib n e) (r : Out) :
-    Eval lib e r ↔ r ∈ evalAll lib n e :=
-  ⟨evalAll_complete lib n e hn r, fun h => evalAll_sound lib n e r h (fun hu => hn (hu ▸ h))⟩
+theorem evalAll_exact (lib : Lib) (n : Nat) (c : Ctx) (e : Expr) (hn : Out.unk ∉ evalAll lib n c e) (r : Out) :
+    Eval lib c e r ↔ r ∈ evalAll lib n c e :=
+  ⟨evalAll_complete lib n c e hn r, fun h => evalAll_sound lib n c e r h (fun hu => hn (hu ▸ h))⟩
 
 /-- determinism wherever `evalFuel` answers: the value (or error) is the only outcome the rules allow -/
-theorem evalFuel_unique (lib : Lib) (n : Nat) (e : Expr) (r : Out) (h : evalFuel lib n e = some r) (r' : Out)
-    (h' : Eval lib e r') : r' = r :=
+theorem evalFuel_unique (lib : Lib) (n : Nat) (c : Ctx) (e : Expr) (r : Out) (h : evalFuel lib n c e = some r) (r' : Out)
+    (h' : Eval lib c e r') : r' = r :=
   EvalCore.evalFuel_unique h r' h'
 
-/-- concrete values evaluate to themselves and to nothing else -/
-theorem value_fixed (lib : Lib) (v : Expr) (hv : isValue v = true) (r : Out) : Eval lib v r ↔ r = .ok v :=
+/-- concrete values evaluate to themselves and to nothing else, in every context -/
+theorem value_fixed (lib : Lib) (c : Ctx) (v : Expr) (hv : isValue v = true) (r : Out) : Eval lib c v r ↔ r = .ok v :=
   ⟨value_unique v hv r, fun h => h ▸ value_self v hv⟩
 
 /-- what an evaluation returns is a concrete value (no expression is left inside) -/
-theorem result_is_value (lib : Lib) (e v : Expr) (h : Eval lib e (.ok v)) : isValue v = true :=
+theorem result_is_value (lib : Lib) (c : Ctx) (e v : Expr) (h : Eval lib c e (.ok v)) : isValue v = true :=
   result_isValue h v rfl
 
 /-- evaluating a result again (done_job after a CSE hit, the outer scheduler after `subrun`) changes nothing -/
-theorem reevaluation_identity (lib : Lib) (e v : Expr) (h : Eval lib e (.ok v)) (r : Out) :
-    Eval lib v r ↔ r = .ok v :=
-  value_fixed lib v (result_is_value lib e v h) r
+theorem reevaluation_identity (lib : Lib) (c c' : Ctx) (e v : Expr) (h : Eval lib c e (.ok v)) (r : Out) :
+    Eval lib c' v r ↔ r = .ok v :=
+  value_fixed lib c' v (result_is_value lib c e v h) r
 
-theorem never_unknown (lib : Lib) (e : Expr) : ¬ Eval lib e .unk := fun h => h.ne_unk rfl
+theorem never_unknown (lib : Lib) (c : Ctx) (e : Expr) : ¬ Eval lib c e .unk := fun h => h.ne_unk rfl
 
 /-! Non-vacuity, on the library the correspondence runs use. -/
 open RedunModel.EvalLib
@@ -62,27 +63,28 @@ def ex1 : Expr :=
   .map_ (.partialv "ev.addx" [] [] [])
     (L [.catch (tcall "ev.raiser" [.str "V", .int 1]) [.cls "ValueError"] [.taskv "ev.rec_zero"], .int 2])
 
-example : evalFuel lib 40 ex1 = some (.ok (L [.int 2, .int 4])) := by rfl
-example : Eval lib ex1 (.ok (L [.int 2, .int 4])) := evalFuel_sound lib 40 ex1 _ (by rfl)
-example (r : Out) (h : Eval lib ex1 r) : r = .ok (L [.int 2, .int 4]) := evalFuel_unique lib 40 ex1 _ (by rfl) r h
+example : evalFuel lib 40 Ctx.empty ex1 = some (.ok (L [.int 2, .int 4])) := by rfl
+example : Eval lib Ctx.empty ex1 (.ok (L [.int 2, .int 4])) := evalFuel_sound lib 40 _ ex1 _ (by rfl)
+example (r : Out) (h : Eval lib Ctx.empty ex1 r) : r = .ok (L [.int 2, .int 4]) :=
+  evalFuel_unique lib 40 _ ex1 _ (by rfl) r h
 
 /-- two failing siblings: both errors are admissible, nothing else is -/
 def ex2 : Expr := L [tcall "ev.raiser" [.str "V", .int 1], tcall "ev.raiser" [.str "K", .int 2]]
 
-example : evalAll lib 10 ex2 = [.err ⟨"ValueError", "V-1"⟩, .err ⟨"KeyError", "K-2"⟩] := by rfl
-example (r : Out) : Eval lib ex2 r ↔ r = .err ⟨"ValueError", "V-1"⟩ ∨ r = .err ⟨"KeyError", "K-2"⟩ := by
-  have hs : evalAll lib 10 ex2 = [.err ⟨"ValueError", "V-1"⟩, .err ⟨"KeyError", "K-2"⟩] := by rfl
-  rw [evalAll_exact lib 10 ex2 (by rw [hs]; simp) r, hs]
+example : evalAll lib 10 Ctx.empty ex2 = [.err ⟨"ValueError", "V-1"⟩, .err ⟨"KeyError", "K-2"⟩] := by rfl
+example (r : Out) : Eval lib Ctx.empty ex2 r ↔ r = .err ⟨"ValueError", "V-1"⟩ ∨ r = .err ⟨"KeyError", "K-2"⟩ := by
+  have hs : evalAll lib 10 Ctx.empty ex2 = [.err ⟨"ValueError", "V-1"⟩, .err ⟨"KeyError", "K-2"⟩] := by rfl
+  rw [evalAll_exact lib 10 Ctx.empty ex2 (by rw [hs]; simp) r, hs]
   simp
 
 /-- ... whereas `catch_all` over the same two terms waits for all of them and re-raises the first error in TERM order:
 exactly one outcome, whatever the completion order (`wait_promises`, not `Promise.all`) -/
 def ex3 : Expr := .catchAll ex2 .none .none
 
-example : evalAll lib 10 ex3 = [.err ⟨"ValueError", "V-1"⟩] := by rfl
-example (r : Out) : Eval lib ex3 r ↔ r = .err ⟨"ValueError", "V-1"⟩ := by
-  have hs : evalAll lib 10 ex3 = [.err ⟨"ValueError", "V-1"⟩] := by rfl
-  rw [evalAll_exact lib 10 ex3 (by rw [hs]; simp) r, hs]
+example : evalAll lib 10 Ctx.empty ex3 = [.err ⟨"ValueError", "V-1"⟩] := by rfl
+example (r : Out) : Eval lib Ctx.empty ex3 r ↔ r = .err ⟨"ValueError", "V-1"⟩ := by
+  have hs : evalAll lib 10 Ctx.empty ex3 = [.err ⟨"ValueError", "V-1"⟩] := by rfl
+  rw [evalAll_exact lib 10 Ctx.empty ex3 (by rw [hs]; simp) r, hs]
   simp
 
 /-- with a recover task and an error class that does not cover them: the first NON-MATCHING error in term order -/
@@ -90,9 +92,17 @@ def ex4 : Expr :=
   .catchAll (L [tcall "ev.raiser" [.str "K", .int 1], tcall "ev.raiser" [.str "V", .int 2], tcall "ev.raiser" [.str "L", .int 3]])
     (.cls "ValueError") (.taskv "ev.rec_count")
 
-example : evalFuel lib 10 ex4 = some (.err ⟨"KeyError", "K-1"⟩) := by rfl
+example : evalFuel lib 10 Ctx.empty ex4 = some (.err ⟨"KeyError", "K-1"⟩) := by rfl
 
 /-- an untaken `cond` branch is not demanded -/
-example : evalFuel lib 10 (.cond [.bool true, .int 1, tcall "ev.raiser" [.str "V", .int 2]]) = some (.ok (.int 1)) := by rfl
+example : evalFuel lib 10 Ctx.empty (.cond [.bool true, .int 1, tcall "ev.raiser" [.str "V", .int 2]]) = some (.ok (.int 1)) := by rfl
+
+/-- context: `ctx_flow(5)` = `[ctx_offset(ctx_scale(5)), ctx_scale(6)]` under `{k: 3, j: 7}`; an `update_context(k=9)` on an inner
+call overrides `k` for that call only -/
+def exCtx : Ctx := fun k => if k = "k" then some (.int 3) else if k = "j" then some (.int 7) else none
+
+example : evalFuel lib 20 exCtx (tcall "ev.ctx_flow" [.int 5]) = some (.ok (L [.int 22, .int 18])) := by rfl
+example : evalFuel lib 20 Ctx.empty (tcall "ev.ctx_flow" [.int 5]) = some (.ok (L [.int 5, .int 6])) := by rfl
+example : evalFuel lib 20 exCtx (tcall "ev.ctx_inner_override" [.int 1]) = some (.ok (L [.int 9, .int 3])) := by rfl
 
 end RedunModel.C01
